@@ -203,6 +203,139 @@ CANARIES = [
 ]
 
 
+# ----------------------------------------------------------------------------- set-up wiring
+class _SymComm:
+    """communicator stand-in for the two set-up functions: concrete size, symbolic rank"""
+
+    def __init__(self, size, rank, tag):
+        self.size, self.rank, self.tag = size, rank, tag
+
+    def Get_size(self):
+        return self.size
+
+    def Get_rank(self):
+        return self.rank
+
+    def Split(self, color=0, key=0):
+        # members with the same colour form the new communicator; the colour used by the set-ups is `rank == drawRank`
+        if bool(color):
+            return _SymComm(1, 0, self.tag + '/plot')
+        return _SymComm(self.size - 1, None, self.tag + '/workers')
+
+
+def wiring_item(item):
+    """the real setupCylindricalGrid / setupFromFile (a fresh copy of setups.py with recording stand-ins for the layout
+    manager, Grid, initialisers, glob and the constants file) on a communicator of P processes whose rank is symbolic:
+    the process grid handed to getLayoutHandler must multiply to the size of the communicator handed over with it, on
+    every rank (plot rank included)."""
+    which, P, plot, draw = item
+    res = H.worker_result()
+    H.install_fake_mpi()
+    import types
+    setups = H.load_copy('pygyro.initialisation.setups', 'pygyro.initialisation._wiring_setups_%s_%d' % (which, P))
+    consts_mod = H.repo_import('pygyro.initialisation.constants')
+    rec = []
+
+    def handler(comm, layouts, nprocs, eta, **k):
+        rec.append((comm, list(nprocs), [len(e) for e in eta]))
+        return types.SimpleNamespace()
+
+    class FakeGrid:
+        def __init__(self, *a, **k):
+            pass
+
+        def setLayout(self, *a):
+            pass
+    setups.getLayoutHandler = handler
+    setups.Grid = FakeGrid
+    for nm in ('initialise_flux_surface', 'initialise_poloidal', 'initialise_v_parallel'):
+        setattr(setups, nm, lambda *a, **k: None)
+    setups.glob = lambda pattern: []
+
+    def consts(*a):
+        c = consts_mod.Constants()
+        c.npts = [8, 8, 8, 8]
+        return c
+    setups.get_constants = consts
+    setups.Constants = consts
+    symx.set_bv(None)
+
+    def body(ctx):
+        del rec[:]
+        rk = z3.Int('rank')
+        ctx.assume(z3.And(rk >= 0, rk < P))
+        comm = _SymComm(P, SInt(rk), 'world')
+        kw = dict(comm=comm, plotThread=plot, drawRank=draw)
+        if which == 'fresh':
+            setups.setupCylindricalGrid('v_parallel', **kw)
+        else:
+            setups.setupFromFile('nowhere', layout='v_parallel', **kw)
+        return list(rec)
+
+    def replay():
+        """all P ranks concretely under the MPI simulator with the REAL getLayoutHandler (real Create_cart / Sub / layouts)"""
+        from lib import simmpi
+        real_layout = H.repo_import('pygyro.model.layout')
+        setups.getLayoutHandler = real_layout.getLayoutHandler
+
+        def rankfn(comm):
+            kw = dict(comm=comm, plotThread=plot, drawRank=draw)
+            import warnings
+            with warnings.catch_warnings():
+                warnings.simplefilter('ignore')
+                if which == 'fresh':
+                    setups.setupCylindricalGrid('v_parallel', **kw)
+                else:
+                    setups.setupFromFile('nowhere', layout='v_parallel', **kw)
+            return True
+        try:
+            simmpi.World(P).run(rankfn)
+        except Exception as e:
+            return '%s: %s' % (type(e).__name__, str(e)[:200])
+        finally:
+            setups.getLayoutHandler = handler
+        return None
+
+    for ctx, (kind, val) in explore(body, timeout_ms=20000, index_cap=64):
+        if kind == 'abort':
+            if val.inconclusive:
+                res['inconclusive'].append('wiring abort %s %r' % (val.why, item))
+            continue
+        res['obligations'] += 1
+        mdl = ctx.model() if ctx.check() == 'sat' else None
+        rkv = symx.model_value(mdl, SInt(z3.Int('rank'))) if mdl is not None else None
+        if kind == 'exc' and not replay():
+            res['inconclusive'].append('wiring: exception on the model only: %s %s %r' % (type(val).__name__, str(val)[:150], item))
+            continue
+        if kind == 'exc':
+            res['violations'].append(('wiring:exception', '%s(%s) on %d processes (plotThread=%s, drawRank=%d), rank %s: %s: %s' % (
+                'setupCylindricalGrid' if which == 'fresh' else 'setupFromFile', 'v_parallel', P, plot, draw, rkv, type(val).__name__, str(val)[:150]),
+                dict(kind='wiring', item=list(item), rank=str(rkv))))
+            continue
+        bad = None
+        if len(val) != 1:
+            bad = 'getLayoutHandler called %d times' % len(val)
+        else:
+            comm, nprocs, lens = val[0]
+            if int(nprocs[0]) * int(nprocs[1]) != comm.Get_size():
+                bad = 'process grid %s handed over with a communicator of %d process(es) (%s)' % (nprocs, comm.Get_size(), comm.tag)
+            elif comm.tag.endswith('/plot') and any(lens):
+                bad = 'the plot rank builds layouts on a non-empty grid'
+        if bad:
+            prob = replay()
+            if prob:
+                res['violations'].append(('wiring:grid', '%s on %d processes (plotThread=%s, drawRank=%d), rank %s: %s; with the real layout manager on all ranks: %s' % (
+                    'setupCylindricalGrid' if which == 'fresh' else 'setupFromFile', P, plot, draw, rkv, bad, prob), dict(kind='wiring', item=list(item), rank=str(rkv), concrete=prob)))
+            else:
+                res['inconclusive'].append('wiring: %s, but the real layout manager accepts it on all ranks (%r)' % (bad, item))
+        else:
+            res['discharged'] += 1
+            res['nontrivial'].append('wiring|%r|%s' % (item, ''.join('T' if d['choice'] else 'F' for d in ctx.decisions)))
+    res['stats'] = symx.GLOBAL.as_dict()
+    symx.GLOBAL.__init__()
+    return res
+
+
 def main():
     run = H.Run(PID, 'proof')
     pg = H.repo_import('pygyro.model.process_grid')
@@ -225,6 +358,16 @@ def main():
     items.sort(key=lambda it: -it[1])
     for r in H.pmap(work, items, run.args.jobs):
         run.merge(r)
+    witems = []
+    for which in ('fresh', 'restart'):
+        for Pw in ((2, 3, 5) if run.tier == 'quick' else (1, 2, 3, 4, 5, 6, 7, 8)):
+            witems.append((which, Pw, False, 0))
+            if Pw >= 2:
+                witems.append((which, Pw, True, 0))
+                witems.append((which, Pw, True, Pw - 1))
+    for r in H.pmap(wiring_item, witems, run.args.jobs):
+        run.merge(r)
+    run.sections['setup_wiring_items'] = len(witems)
     # canaries: in-memory mutants of the function must be reported
     sizes = [4, 6, 12] if run.tier == 'quick' else [4, 6, 8, 9, 12, 16, 30]
     can_items = [('max', s, 24, tmo, edits) for name, edits in CANARIES for s in sizes]
@@ -247,7 +390,7 @@ def main():
                    'IEEE rounding of the ratio comparison (ratios compared in exact rationals; each path is '
                    'additionally replayed once on the real float code and must return the same grid)']
     run.assumptions = ['ratio comparisons evaluated over exact rationals', 'arguments are positive ints']
-    run.stubs = []
+    run.stubs = ['set-up wiring part: getLayoutHandler / Grid / initialisers / glob / constants file of a fresh copy of setups.py replaced by recording stand-ins; communicator with concrete size and symbolic rank']
     run.finish(
         explanation='CPython executes the real compute_2d_process_grid(_from_max) on z3 Int proxies; per mpi_size every '
                     'feasible path is enumerated by solver-guided forking; on each path z3 decides (a) returned grid '
